@@ -116,7 +116,10 @@ type aclHook struct {
 
 func (a *aclHook) ID() string { return "verif-acl" }
 func (a *aclHook) Provides(b byte) bool {
-	return b == mqtt.OnConnectAuthenticate || b == mqtt.OnACLCheck
+	if b == mqtt.OnConnectAuthenticate {
+		return a.cfg.Auth != "acl_only" // "acl_only": authentication is left to the scripted hooks (C19)
+	}
+	return b == mqtt.OnACLCheck
 }
 func (a *aclHook) OnConnectAuthenticate(cl *mqtt.Client, pk packets.Packet) bool {
 	for _, d := range a.cfg.DenyConn {
